@@ -485,6 +485,28 @@ fn truncated_push(p: &str) -> String {
     }
 }
 
+#[path = "../nodes_gen.rs"]
+mod nodes_gen;
+
+/// size() of a freshly built node of the named variant (leaf children) must equal its number of nodes.
+fn node_size(p: &str) -> String {
+    let name = str_param(p, "name").unwrap_or_default();
+    let leaf = RSV::new_value(0, Provenance::Synthetic);
+    match nodes_gen::node_data(&name, &leaf) {
+        None => format!("{{\"violates\": false, \"outcome\": \"unknown variant {name}\"}}"),
+        Some(d) => {
+            let node = RSV::new_synthetic(1, d);
+            let n = count_nodes(&node);
+            let folded = node.constant_fold();
+            let nf = count_nodes(&folded);
+            format!(
+                "{{\"violates\": {}, \"variant\": \"{}\", \"size\": {}, \"nodes\": {}, \"folded_size\": {}, \"folded_nodes\": {}}}",
+                node.size() != n || folded.size() != nf, name, node.size(), n, folded.size(), nf
+            )
+        }
+    }
+}
+
 fn main() {
     let args: Vec<String> = std::env::args().collect();
     if args.len() < 3 {
@@ -498,6 +520,7 @@ fn main() {
         "fork_first_visit" => fork_first_visit(&p),
         "jump_target_bits" => jump_target_bits(&p),
         "halting_opcode" => halting_opcode(&p),
+        "node_size" => node_size(&p),
         "truncated_push" => truncated_push(&p),
         "error_kind" => error_kind(&p),
         "rejected_jump_falls_through" => rejected_jump_falls_through(&p),
